@@ -4,7 +4,7 @@ from ref import pools, zkp
 
 ID = "C08"
 LEVEL = "exploration"
-CONFIGS = {"quick": ["san", "san_nv"], "thorough": ["san", "san_nv", "mx_i64", "mx_w2"]}
+CONFIGS = {"quick": ["san", "san_nv", "mx_i64"], "thorough": ["san", "san_nv", "mx_i64", "mx_w2"]}
 RULE = ("pedersen_commit on pool blinding factors (0, n-1, n, 2^256-1) x pool values (0, 1, 2^63, 2^64-1) x generators (h, seed-derived, blinded, parsed, "
         "known-discrete-log generators so that the result at infinity is constructible); generator derivation vs a Shallue-van de Woestijne model; "
         "verify_tally on lists of 0..32 commitments over 1..4 assets balanced through the blind-sum helpers, then unbalanced by one value unit / one "
@@ -180,7 +180,7 @@ def wl_blind_sum(ctx, config):
                 ctx.check(r.ret == 0, "pedersen_bgbs:b_ge_n_accepted", "which=%d idx=%d" % (which, idx), config)
 
 def run(ctx):
-    for config in ctx.configs:
+    for config in ctx.cfgs():
         wl_commit(ctx, config)
         wl_parsers(ctx, config)
         wl_tally(ctx, config)
